@@ -251,29 +251,72 @@ Definition wr_ok (h : heap) (w : wr) : Prop :=
   exists b, znth h (w_id w) = Some b /\ blive b = true /\
             0 <= w_off w /\ 0 <= w_len w /\ w_off w + w_len w <= zlen (bcells b).
 
-Lemma finish_spec s dst src ulen newlen c :
-  znth (hp s) dst = Some (mkblk c true) -> 0 <= ulen <= zlen src -> ulen + 1 <= zlen c ->
+Lemma finish_spec s dst p ulen newlen c nb :
+  znth (hp s) dst = Some (mkblk c true) ->
+  src_read (hp s) p dst ulen = Some (map Some nb) -> zlen nb = ulen -> ulen + 1 <= zlen c ->
   exists c',
-    set_finish s dst src ulen newlen =
+    set_finish s dst p ulen newlen =
       SOk (mkst newlen (ilen0 s) (if dst =? 0 then None else pptr s)
                 (hset (hp s) dst (mkblk c' true)) (reqs s) (elog s)) 1
           [mkwr dst 0 ulen; mkwr dst ulen 1]
-    /\ holds c' (zfirstn ulen src) /\ zlen c' = zlen c.
+    /\ holds c' nb /\ zlen c' = zlen c.
 Proof.
-  intros Hz Hu Hc. pose proof (znth_range _ _ _ Hz) as Hr.
-  set (bs := zfirstn ulen src).
-  assert (Hl : zlen bs = ulen) by (subst bs; rewrite zlen_zfirstn; lia).
-  exists (cstore (cstore c 0 (map Some bs)) ulen [Some 0]).
-  assert (L1 : zlen (cstore c 0 (map Some bs)) = zlen c) by (apply zlen_cstore; rewrite ?zlen_map; lia).
+  intros Hz Hrd Hl Hc. pose proof (znth_range _ _ _ Hz) as Hr. pose proof (zlen_nonneg nb) as Hn.
+  exists (cstore (cstore c 0 (map Some nb)) ulen [Some 0]).
+  assert (L1 : zlen (cstore c 0 (map Some nb)) = zlen c) by (apply zlen_cstore; rewrite ?zlen_map; lia).
   split; [|split].
-  - unfold set_finish. assert (E : (ulen >? zlen src) = false) by lia. rewrite E.
-    fold bs. unfold hwrite.
+  - unfold set_finish. rewrite Hrd. unfold hwrite.
     rewrite (hstore_ok _ _ c) by (try assumption; rewrite ?zlen_map; lia).
-    rewrite (hstore_ok _ _ (cstore c 0 (map Some bs))) by
+    rewrite (hstore_ok _ _ (cstore c 0 (map Some nb))) by
       (try (apply znth_hset_eq; lia); cbn [map zlen]; lia).
     rewrite hset_hset. reflexivity.
   - rewrite <- Hl. apply holds_two_writes. lia.
   - rewrite zlen_cstore by (cbn [zlen]; lia). assumption.
+Qed.
+
+(* ------------------------------------------------------------------ the source of a setter *)
+(* [src_ok s bs0 p ulen nb]: the pointer [p] passed to a setter of the node [s] (holding bs0)
+   has [ulen] readable bytes, which are [nb]: either memory outside the node, or the node's own
+   current buffer at offset [off], inside the contents, and either exactly at the start
+   (in-place truncation) or far enough in for the copy not to overlap its destination *)
+Definition src_ok (s : st) (bs0 : list byte) (p : sptr) (ulen : Z) (nb : list byte) : Prop :=
+  zlen nb = ulen /\
+  match p with
+  | PExt src => ulen <= zlen src /\ nb = zfirstn ulen src
+  | PHeap id off => comp s = Some id /\ 0 <= off /\ off + ulen <= zlen bs0 /\
+                    (off = 0 \/ ulen <= off) /\ nb = zfirstn ulen (zskipn off bs0)
+  end.
+
+Lemma zskipn_map_app {A} (f : list A) off X : 0 <= off <= zlen f -> zskipn off (f ++ X) = zskipn off f ++ X.
+Proof. intros H. apply zskipn_app_l. assumption. Qed.
+
+(* reading the node's own bytes through the heap *)
+Lemma hread_holds h id c bs0 off n :
+  znth h id = Some (mkblk c true) -> holds c bs0 -> 0 <= off -> 0 <= n -> off + n <= zlen bs0 ->
+  hread h id off n = Some (map Some (zfirstn n (zskipn off bs0))).
+Proof.
+  intros Hz Hh Ho Hn Hl. pose proof (holds_len _ _ Hh) as Hc.
+  rewrite (hread_ok _ _ c) by (try assumption; lia). f_equal.
+  rewrite (holds_split _ _ Hh) at 1.
+  rewrite zskipn_app_l by (rewrite zlen_map; lia).
+  rewrite zfirstn_app_l by (rewrite zlen_zskipn, zlen_map; lia).
+  rewrite map_zfirstn, map_zskipn. reflexivity.
+Qed.
+
+Lemma src_read_ok s bs0 p ulen nb h dst :
+  src_ok s bs0 p ulen nb -> 0 <= ulen ->
+  (forall id off, p = PHeap id off ->
+     ulen = 0 \/ exists c, znth h id = Some (mkblk c true) /\ holds c bs0) ->
+  src_read h p dst ulen = Some (map Some nb).
+Proof.
+  intros (Hl & Hp) Hu Hblk. destruct p as [src|id off]; cbn [src_read].
+  - destruct Hp as (Hs & ->). assert (E : (ulen >? zlen src) = false) by lia. rewrite E. reflexivity.
+  - destruct Hp as (_ & Ho & Hin & Hov & ->).
+    destruct (ulen =? 0) eqn:E0.
+    + assert (ulen = 0) by lia. subst ulen. rewrite zfirstn_nonpos by lia. reflexivity.
+    + assert (E1 : ((id =? dst) && (0 <? off) && (off <? ulen)) = false) by lia. rewrite E1.
+      destruct (Hblk id off eq_refl) as [H0|(c & Hz & Hh)]; [lia|].
+      apply (hread_holds _ _ c); try assumption; lia.
 Qed.
 
 Lemma wr_ok_finish h dst c' ulen :
@@ -319,27 +362,30 @@ Proof.
 Qed.
 
 (* ------------------------------------------------------------------ the setter *)
-Definition set_post (al : alloc) (s : st) (src : list byte) (ulen : Z) (r : sres) : Prop :=
+Definition set_post (al : alloc) (s : st) (nb : list byte) (ulen : Z) (r : sres) : Prop :=
   match r with
   | SOk s' ret ws =>
-      (ret = 1 /\ InvC s' (zfirstn ulen src) /\ ulen < INT_MAX - 1 /\
+      (ret = 1 /\ InvC s' nb /\ ulen < INT_MAX - 1 /\
        Forall (wr_ok (hp s')) ws /\ ilen0 s' = ilen0 s)
       \/ (ret = 0 /\ ws = [] /\ same_store s s' /\
           (INT_MAX - 1 <= ulen \/ (al (reqs s) (ulen + 1) = false /\ slen_abs s < ulen)))
   | SUB => False
   end.
 
-Lemma set_sz_spec al s bs0 src ulen :
-  InvC s bs0 -> 0 <= ulen -> (ulen < INT_MAX - 1 -> ulen <= zlen src) ->
-  set_post al s src ulen (set_string_sz al s src ulen).
+Lemma set_sz_spec al s bs0 src ulen nb :
+  InvC s bs0 -> 0 <= ulen -> (ulen < INT_MAX - 1 -> src_ok s bs0 src ulen nb) ->
+  set_post al s nb ulen (set_string_sz al s src ulen).
 Proof.
-  intros HI Hu Hsrc. pose proof (zlen_nonneg bs0) as Hn0.
+  intros HI Hu Hsrc. pose proof (zlen_nonneg bs0) as Hn0. pose proof HI as HI0.
   destruct HI as [Hl0 Habs Hmin (ic & Hz0 & Hic & Hin) Hsep Hlive Hlok Hnm Hll].
   unfold set_string_sz.
   destruct (ulen >=? INT_MAX - 1) eqn:E0.
   { right. unfold same_store. repeat split; auto. left; lia. }
-  assert (Hs : ulen <= zlen src) by lia.
-  assert (Hzf : zlen (zfirstn ulen src) = ulen) by (rewrite zlen_zfirstn; lia).
+  assert (Hok : src_ok s bs0 src ulen nb) by (apply Hsrc; lia).
+  assert (Hzf : zlen nb = ulen) by (apply Hok).
+  (* an own-buffer source never asks for more than the node holds *)
+  assert (Hown : forall id off, src = PHeap id off -> comp s = Some id /\ ulen <= zlen bs0).
+  { intros id off ->. destruct Hok as (_ & Hc & Ho & Hin2 & _). split; [assumption|lia]. }
   pose proof (znth_range _ _ _ Hz0) as R0.
   unfold slen_abs in Habs.
   destruct (slen s <? 0) eqn:Eneg.
@@ -347,16 +393,19 @@ Proof.
     destruct Hsep as (p & pc & Hp & Hp0 & Hzp & Hhp); [lia|].
     pose proof (holds_len _ _ Hhp) as Hlp. pose proof (znth_range _ _ _ Hzp) as Rp.
     rewrite Hp in Hll. cbn [app] in Hll.
+    assert (Hcomp : comp s = Some p) by (unfold comp; rewrite Eneg; exact Hp).
     unfold set_phase1. rewrite Eneg.
     destruct (ulen =? 0) eqn:Ez.
     + (* new length 0: the buffer is released, the empty string goes inline *)
-      assert (ulen = 0) by lia. subst ulen.
+      assert (Hu0 : ulen = 0) by lia. rewrite Hu0 in *. clear Hsrc.
       rewrite Hp. rewrite (hfree_ok _ _ pc Hzp).
       unfold comp. cbn [slen]. cbn [Z.ltb Z.compare Z.gtb].
       set (h' := hset (hp s) p (mkblk pc false)).
       assert (Hz0' : znth h' 0 = Some (mkblk ic true)) by (subst h'; rewrite znth_hset_neq by lia; exact Hz0).
-      destruct (finish_spec (mkst 0 (ilen0 s) (Some p) h' (reqs s) (EvFree p :: elog s)) 0 src 0 0 ic Hz0')
-        as (c' & Hf & Hh' & Hlc'); [lia|unfold PTRSZ in *; lia|].
+      assert (Hrd : src_read h' src 0 0 = Some (map Some nb)).
+      { apply (src_read_ok s bs0); [assumption|lia|]. intros; left; reflexivity. }
+      destruct (finish_spec (mkst 0 (ilen0 s) (Some p) h' (reqs s) (EvFree p :: elog s)) 0 src 0 0 ic nb Hz0' Hrd)
+        as (c' & Hf & Hh' & Hlc'); [assumption|unfold PTRSZ in *; lia|].
       cbn [slen ilen0 pptr hp reqs elog] in Hf. rewrite Hf. cbn [set_post].
       left. split; [reflexivity|]. cbn [hp ilen0]. split; [|split; [lia|split; [|reflexivity]]].
       * cbn [Z.eqb]. apply (build_inline 0 (ilen0 s) _ _ _ c'); try assumption; try lia.
@@ -387,9 +436,12 @@ Proof.
            set (h3 := hset h2 0 (mkblk ic' true)).
            assert (Hzid : znth h3 id = Some (mkblk (zrepeat None (ulen + 1)) true)).
            { subst h3 h2. rewrite !znth_hset_neq by lia. subst h1 id. apply znth_app_last. }
+           assert (Hrd : src_read h3 src id ulen = Some (map Some nb)).
+           { apply (src_read_ok s bs0); [assumption|lia|]. intros i o E. exfalso.
+             destruct (Hown i o E) as [_ Hle2]. lia. }
            destruct (finish_spec (mkst (slen s) (ilen0 s) (Some id) h3 (reqs s + 1)
-                                   ([EvFree p] ++ EvMalloc id (ulen + 1) :: elog s)) id src ulen (- ulen) _ Hzid)
-             as (c' & Hf & Hh' & Hlc'); [lia|rewrite zlen_zrepeat; lia|].
+                                   ([EvFree p] ++ EvMalloc id (ulen + 1) :: elog s)) id src ulen (- ulen) _ nb Hzid Hrd)
+             as (c' & Hf & Hh' & Hlc'); [assumption|rewrite zlen_zrepeat; lia|].
            rewrite zlen_zrepeat in Hlc'.
            cbn [slen ilen0 pptr hp reqs elog] in Hf. rewrite Hf. cbn [set_post].
            assert (Eid : (id =? 0) = false) by lia. rewrite Eid.
@@ -412,7 +464,11 @@ Proof.
         -- cbn [set_post]. right. unfold same_store, slen_abs. cbn [slen ilen0 pptr hp elog]. rewrite Eneg.
            repeat split; auto. right. split; [assumption|lia].
       * (* fits what is remembered of the separate buffer: reuse it *)
-        destruct (finish_spec s p src ulen (- ulen) pc Hzp) as (c' & Hf & Hh' & Hlc'); [lia|lia|].
+        assert (Hrd : src_read (hp s) src p ulen = Some (map Some nb)).
+        { apply (src_read_ok s bs0); [assumption|lia|]. intros i o E. right.
+          destruct (Hown i o E) as [Hc _]. rewrite Hcomp in Hc. inversion Hc; subst i.
+          exists pc. split; assumption. }
+        destruct (finish_spec s p src ulen (- ulen) pc nb Hzp Hrd) as (c' & Hf & Hh' & Hlc'); [assumption|lia|].
         rewrite Hf. cbn [set_post]. assert (Ep : (p =? 0) = false) by lia. rewrite Ep, Hp.
         left. split; [reflexivity|]. cbn [hp ilen0]. split; [|split; [lia|split; [|reflexivity]]].
         -- apply (build_sep ulen (ilen0 s) p _ _ _ ic c'); try assumption; try lia.
@@ -425,6 +481,7 @@ Proof.
   - (* inline storage *)
     destruct Hin as [Hle Hh0]; [lia|]. pose proof (holds_len _ _ Hh0) as Hl0i.
     cbn [app] in Hll.
+    assert (Hcomp : comp s = Some 0) by (unfold comp; rewrite Eneg; reflexivity).
     unfold set_phase1. rewrite Eneg. unfold comp. rewrite Eneg.
     destruct (ulen >? slen s) eqn:Eg.
     + destruct (al (reqs s) (ulen + 1)) eqn:Eal.
@@ -438,9 +495,12 @@ Proof.
         set (h3 := hset h1 0 (mkblk ic' true)).
         assert (Hzid : znth h3 id = Some (mkblk (zrepeat None (ulen + 1)) true)).
         { subst h3. rewrite !znth_hset_neq by lia. subst h1 id. apply znth_app_last. }
+        assert (Hrd : src_read h3 src id ulen = Some (map Some nb)).
+        { apply (src_read_ok s bs0); [assumption|lia|]. intros i o E. exfalso.
+          destruct (Hown i o E) as [_ Hle2]. lia. }
         destruct (finish_spec (mkst (slen s) (ilen0 s) (Some id) h3 (reqs s + 1)
-                                ([] ++ EvMalloc id (ulen + 1) :: elog s)) id src ulen (- ulen) _ Hzid)
-          as (c' & Hf & Hh' & Hlc'); [lia|rewrite zlen_zrepeat; lia|].
+                                ([] ++ EvMalloc id (ulen + 1) :: elog s)) id src ulen (- ulen) _ nb Hzid Hrd)
+          as (c' & Hf & Hh' & Hlc'); [assumption|rewrite zlen_zrepeat; lia|].
            rewrite zlen_zrepeat in Hlc'.
         cbn [slen ilen0 pptr hp reqs elog] in Hf. rewrite Hf. cbn [set_post].
         assert (Eid : (id =? 0) = false) by lia. rewrite Eid.
@@ -460,7 +520,11 @@ Proof.
       * cbn [set_post]. right. unfold same_store, slen_abs. cbn [slen ilen0 pptr hp elog]. rewrite Eneg.
         repeat split; auto. right. split; [assumption|lia].
     + (* fits the current inline contents *)
-      destruct (finish_spec s 0 src ulen ulen ic Hz0) as (c' & Hf & Hh' & Hlc'); [lia|unfold PTRSZ in *; lia|].
+      assert (Hrd : src_read (hp s) src 0 ulen = Some (map Some nb)).
+      { apply (src_read_ok s bs0); [assumption|lia|]. intros i o E. right.
+        destruct (Hown i o E) as [Hc _]. rewrite Hcomp in Hc. inversion Hc; subst i.
+        exists ic. split; assumption. }
+      destruct (finish_spec s 0 src ulen ulen ic nb Hz0 Hrd) as (c' & Hf & Hh' & Hlc'); [assumption|unfold PTRSZ in *; lia|].
       rewrite Hf. cbn [set_post Z.eqb].
       left. split; [reflexivity|]. cbn [hp ilen0]. split; [|split; [lia|split; [|reflexivity]]].
       * apply (build_inline ulen (ilen0 s) _ _ _ c'); try assumption; try lia.
@@ -496,73 +560,207 @@ Proof.
   destruct (IH H) as (m & ->). eauto.
 Qed.
 
+(* strlen through a pointer into a buffer that holds [a], NUL, ... *)
+Lemma c_strlen_cells_app a r : c_strlen_cells (map Some a ++ Some 0 :: r) = c_strlen (a ++ [0]).
+Proof.
+  induction a as [|x a IH]; cbn [map app c_strlen_cells c_strlen]; [reflexivity|].
+  destruct (x =? 0); [reflexivity|]. rewrite IH. reflexivity.
+Qed.
+
+Lemma cstr_nul a : exists n, c_strlen (a ++ [0]) = Some n /\ 0 <= n <= zlen a /\
+                             cstr (a ++ [0]) = zfirstn n a.
+Proof.
+  destruct (c_strlen_total (a ++ [0])) as (n & Hn); [apply in_or_app; right; left; reflexivity|].
+  destruct (c_strlen_spec _ _ Hn) as (R & _ & _). rewrite zlen_app in R. cbn [zlen] in R.
+  exists n. split; [assumption|]. split; [lia|]. unfold cstr. rewrite Hn. apply zfirstn_app_l. lia.
+Qed.
+
+(* the contents as a function of the state (what an own-buffer source points into) *)
+Definition contents (s : st) : list byte :=
+  match read_bytes s (slen_abs s) with Some b => b | None => [] end.
+
+Lemma inv_contents s bs : InvC s bs -> contents s = bs.
+Proof. intros H. unfold contents. destruct (inv_read_bytes _ _ H) as [-> _]. reflexivity. Qed.
+
 (* ------------------------------------------------------------------ one step of a history *)
-(* caller contract: the int argument is an int; a length that is not refused is readable at
-   the source; a strlen-based source is NUL-terminated *)
-Definition op_wf (o : sop) : Prop :=
+(* caller contract, relative to the contents [c] at the call: the int argument is an int; a
+   length that is not refused is readable at the source; a strlen-based source is
+   NUL-terminated; a source inside the node's own buffer (json_object_get_string(o) + off)
+   stays inside the contents and either starts at their first byte (truncation in place) or
+   is at least its own length away from it (no partial overlap of the copy) *)
+Definition op_wf (c : list byte) (o : sop) : Prop :=
   match o with
   | OpSetLen bs len => INT_MIN <= len <= INT_MAX /\ (0 <= len < INT_MAX - 1 -> len <= zlen bs)
   | OpSet bs => In 0 bs
+  | OpSetOwnLen off len =>
+      INT_MIN <= len <= INT_MAX /\ 0 <= off <= zlen c /\
+      (0 <= len < INT_MAX - 1 -> off + len <= zlen c /\ (off = 0 \/ len <= off))
+  | OpSetOwn off =>
+      0 <= off <= zlen c /\ (off = 0 \/ zlen (cstr (zskipn off c ++ [0])) <= off)
   end.
 
 (* the length the property statement speaks of *)
-Definition op_len (o : sop) : Z :=
+Definition op_len (c : list byte) (o : sop) : Z :=
   match o with
   | OpSetLen _ len => len
   | OpSet bs => zlen (cstr bs)
+  | OpSetOwnLen _ len => len
+  | OpSetOwn off => zlen (cstr (zskipn off c ++ [0]))
   end.
 
-Definition step_post (al : alloc) (s : st) (o : sop) (r : sres) : Prop :=
+Definition step_post (al : alloc) (s : st) (c : list byte) (o : sop) (r : sres) : Prop :=
   match r with
   | SOk s' ret ws =>
-      (ret = 1 /\ InvC s' (op_bytes o) /\ zlen (op_bytes o) = op_len o /\ 0 <= op_len o < INT_MAX - 1 /\
+      (ret = 1 /\ InvC s' (op_bytes c o) /\ zlen (op_bytes c o) = op_len c o /\
+       0 <= op_len c o < INT_MAX - 1 /\
        Forall (wr_ok (hp s')) ws /\ ilen0 s' = ilen0 s)
       \/ (ret = 0 /\ ws = [] /\ same_store s s' /\
-          (op_len o < 0 \/ INT_MAX - 1 <= op_len o \/
-           (al (reqs s) (op_len o + 1) = false /\ slen_abs s < op_len o)))
+          (op_len c o < 0 \/ INT_MAX - 1 <= op_len c o \/
+           (al (reqs s) (op_len c o + 1) = false /\ slen_abs s < op_len c o)))
   | SUB => False
   end.
 
-Theorem step_spec al s bs0 o :
-  InvC s bs0 -> op_wf o -> step_post al s o (str_step al s o).
+(* set_string_len with an int argument, any source *)
+Lemma set_len_spec al s bs0 p len nb :
+  InvC s bs0 -> INT_MIN <= len <= INT_MAX ->
+  (0 <= len < INT_MAX - 1 -> src_ok s bs0 p len nb) ->
+  match set_string_len al s p len with
+  | SOk s' ret ws =>
+      (ret = 1 /\ InvC s' nb /\ zlen nb = len /\ 0 <= len < INT_MAX - 1 /\
+       Forall (wr_ok (hp s')) ws /\ ilen0 s' = ilen0 s)
+      \/ (ret = 0 /\ ws = [] /\ same_store s s' /\
+          (len < 0 \/ INT_MAX - 1 <= len \/
+           (al (reqs s) (len + 1) = false /\ slen_abs s < len)))
+  | SUB => False
+  end.
 Proof.
-  intros HI Hwf. destruct o as [src len|src]; cbn [str_step op_wf] in *.
-  - destruct Hwf as [Hr Hsrc]. unfold set_string_len, to_size_t.
-    destruct (len <? 0) eqn:En.
-    + pose proof (set_sz_spec al s bs0 src (len + SIZE_MAX + 1) HI) as S.
-      unfold set_post in S. unfold step_post. cbn [op_len op_bytes].
-      destruct (set_string_sz al s src (len + SIZE_MAX + 1)) as [s' ret ws|];
-        [|apply S; unfold INT_MIN, INT_MAX, SIZE_MAX in *; lia].
-      destruct S as [(_ & _ & Hlt & _)|(-> & -> & Hss & _)];
-        try (unfold INT_MIN, INT_MAX, SIZE_MAX in *; lia).
-      right. repeat split; try apply Hss. left. lia.
-    + pose proof (set_sz_spec al s bs0 src len HI) as S.
-      unfold set_post in S. unfold step_post. cbn [op_len op_bytes].
-      destruct (set_string_sz al s src len) as [s' ret ws|]; [|apply S; lia].
-      destruct S as [(-> & HI' & Hlt & Hws & Hi0)|(-> & -> & Hss & Hwhy)]; try lia.
-      * left. split; [reflexivity|]. split; [assumption|]. split; [rewrite zlen_zfirstn; lia|].
-        split; [lia|]. split; assumption.
-      * right. repeat split; try apply Hss. right. exact Hwhy.
-  - destruct (c_strlen_total _ Hwf) as (n & Hn). unfold set_string. rewrite Hn.
-    destruct (c_strlen_spec _ _ Hn) as (Rn & _ & _).
-    pose proof (set_sz_spec al s bs0 src n HI) as S.
-    unfold set_post in S. unfold step_post. cbn [op_len op_bytes]. unfold cstr. rewrite Hn.
-    assert (Hz : zlen (zfirstn n src) = n) by (rewrite zlen_zfirstn; lia). rewrite Hz.
-    destruct (set_string_sz al s src n) as [s' ret ws|]; [|apply S; lia].
-    destruct S as [(-> & HI' & Hlt & Hws & Hi0)|(-> & -> & Hss & Hwhy)]; try lia.
-    + left. split; [reflexivity|]. split; [assumption|]. split; [reflexivity|].
+  intros HI Hr Hsrc. unfold set_string_len, to_size_t. destruct (len <? 0) eqn:En.
+  - assert (Hbig : INT_MAX - 1 <= len + SIZE_MAX + 1) by (unfold INT_MIN, INT_MAX, SIZE_MAX in *; lia).
+    assert (H0 : 0 <= len + SIZE_MAX + 1) by (unfold INT_MIN, INT_MAX, SIZE_MAX in *; lia).
+    assert (H1 : len + SIZE_MAX + 1 < INT_MAX - 1 -> src_ok s bs0 p (len + SIZE_MAX + 1) nb)
+      by (intros; exfalso; lia).
+    pose proof (set_sz_spec al s bs0 p (len + SIZE_MAX + 1) nb HI H0 H1) as S. unfold set_post in S.
+    destruct (set_string_sz al s p (len + SIZE_MAX + 1)) as [s' ret ws|]; [|exact S].
+    destruct S as [(_ & _ & Hlt & _)|(-> & -> & Hss & _)]; [lia|].
+    right. split; [reflexivity|]. split; [reflexivity|]. split; [assumption|]. left. lia.
+  - assert (H0 : 0 <= len) by lia.
+    assert (H1 : len < INT_MAX - 1 -> src_ok s bs0 p len nb) by (intros; apply Hsrc; lia).
+    pose proof (set_sz_spec al s bs0 p len nb HI H0 H1) as S. unfold set_post in S.
+    destruct (set_string_sz al s p len) as [s' ret ws|]; [|exact S].
+    destruct S as [(-> & HI' & Hlt & Hws & Hi0)|(-> & -> & Hss & Hwhy)].
+    + left. split; [reflexivity|]. split; [assumption|]. split; [apply Hsrc; lia|].
       split; [lia|]. split; assumption.
-    + right. repeat split; try apply Hss. right. exact Hwhy.
+    + right. split; [reflexivity|]. split; [reflexivity|]. split; [assumption|]. right. exact Hwhy.
+Qed.
+
+(* set_string: the length is found by strlen at the source *)
+Lemma set_str_spec al s bs0 p n nb :
+  InvC s bs0 -> src_strlen (hp s) p = Some n -> 0 <= n -> src_ok s bs0 p n nb ->
+  match set_string al s p with
+  | SOk s' ret ws =>
+      (ret = 1 /\ InvC s' nb /\ 0 <= n < INT_MAX - 1 /\
+       Forall (wr_ok (hp s')) ws /\ ilen0 s' = ilen0 s)
+      \/ (ret = 0 /\ ws = [] /\ same_store s s' /\
+          (INT_MAX - 1 <= n \/ (al (reqs s) (n + 1) = false /\ slen_abs s < n)))
+  | SUB => False
+  end.
+Proof.
+  intros HI Hn H0 Hok. unfold set_string. rewrite Hn.
+  pose proof (set_sz_spec al s bs0 p n nb HI H0 (fun _ => Hok)) as S. unfold set_post in S.
+  destruct (set_string_sz al s p n) as [s' ret ws|]; [|exact S].
+  destruct S as [(-> & HI' & Hlt & Hws & Hi0)|(-> & -> & Hss & Hwhy)].
+  - left. split; [reflexivity|]. split; [assumption|]. split; [lia|]. split; assumption.
+  - right. split; [reflexivity|]. split; [reflexivity|]. split; assumption.
+Qed.
+
+Theorem step_spec al s bs0 o :
+  InvC s bs0 -> op_wf bs0 o -> step_post al s bs0 o (str_step al s o).
+Proof.
+  intros HI Hwf. pose proof (zlen_nonneg bs0) as Hn0.
+  destruct o as [src len|src|off len|off]; cbn [str_step op_wf] in *; unfold step_post; cbn [op_len op_bytes].
+  - destruct Hwf as [Hr Hsrc].
+    apply (set_len_spec al s bs0 (PExt src) len (zfirstn len src) HI Hr).
+    intros Hl. split; [rewrite zlen_zfirstn; lia|]. split; [lia|reflexivity].
+  - destruct (c_strlen_total _ Hwf) as (n & Hn). destruct (c_strlen_spec _ _ Hn) as (Rn & _ & _).
+    unfold cstr. rewrite Hn.
+    assert (Hz : zlen (zfirstn n src) = n) by (rewrite zlen_zfirstn; lia). rewrite Hz.
+    assert (Hok : src_ok s bs0 (PExt src) n (zfirstn n src)) by (split; [assumption|split; [lia|reflexivity]]).
+    pose proof (set_str_spec al s bs0 (PExt src) n _ HI Hn (proj1 Rn) Hok) as S.
+    destruct (set_string al s (PExt src)) as [s' ret ws|]; [|exact S].
+    destruct S as [(-> & A & B & C & D)|(-> & -> & Hss & Hwhy)].
+    + left. auto 10.
+    + right. auto 10.
+  - destruct Hwf as (Hr & Ho & Hin). destruct (inv_comp _ _ HI) as (id & c & Hc & Hz & Hh). rewrite Hc.
+    apply (set_len_spec al s bs0 (PHeap id off) len (zfirstn len (zskipn off bs0)) HI Hr).
+    intros Hl. destruct (Hin Hl) as [Hi Hov].
+    split; [rewrite zlen_zfirstn, zlen_zskipn; lia|]. split; [assumption|]. split; [lia|].
+    split; [lia|]. split; [assumption|reflexivity].
+  - destruct Hwf as (Ho & Hov). destruct (inv_comp _ _ HI) as (id & c & Hc & Hz & Hh). rewrite Hc.
+    pose proof (holds_len _ _ Hh) as Hlc.
+    destruct (cstr_nul (zskipn off bs0)) as (n & Hn & Rn & Hcs). rewrite Hcs in *.
+    assert (Lsk : zlen (zskipn off bs0) = zlen bs0 - off) by (rewrite zlen_zskipn; lia).
+    assert (Hz2 : zlen (zfirstn n (zskipn off bs0)) = n) by (rewrite zlen_zfirstn; lia). rewrite Hz2 in *.
+    assert (Hsl : src_strlen (hp s) (PHeap id off) = Some n).
+    { cbn [src_strlen]. rewrite Hz. cbn [blive bcells].
+      assert (E1 : (0 <=? off) = true) by lia. assert (E2 : (off <=? zlen c) = true) by lia.
+      rewrite E1, E2. cbn [andb]. rewrite (holds_split _ _ Hh).
+      rewrite zskipn_app_l by (rewrite zlen_map; lia). rewrite <- map_zskipn.
+      rewrite c_strlen_cells_app. assumption. }
+    assert (Hok : src_ok s bs0 (PHeap id off) n (zfirstn n (zskipn off bs0))).
+    { split; [assumption|]. split; [assumption|]. split; [lia|]. split; [lia|]. split; [assumption|reflexivity]. }
+    pose proof (set_str_spec al s bs0 (PHeap id off) n _ HI Hsl (proj1 Rn) Hok) as S.
+    destruct (set_string al s (PHeap id off)) as [s' ret ws|]; [|exact S].
+    destruct S as [(-> & A & B & C & D)|(-> & -> & Hss & Hwhy)].
+    + left. auto 10.
+    + right. auto 10.
+Qed.
+
+(* truncation in place, json_object_set_string_len(o, json_object_get_string(o), n) with
+   n <= current length: always succeeds, never allocates, keeps the first n bytes *)
+Theorem truncate_in_place al s bs0 n :
+  InvC s bs0 -> 0 <= n <= zlen bs0 -> n < INT_MAX - 1 ->
+  exists s' ws, str_step al s (OpSetOwnLen 0 n) = SOk s' 1 ws /\ InvC s' (zfirstn n bs0) /\
+                reqs s' = reqs s /\ Forall (wr_ok (hp s')) ws.
+Proof.
+  intros HI Hn Hs.
+  assert (Hwf : op_wf bs0 (OpSetOwnLen 0 n)).
+  { cbn [op_wf]. unfold INT_MIN, INT_MAX in *. split; [lia|]. split; [lia|]. intros _. split; [lia|left; reflexivity]. }
+  pose proof (step_spec al s bs0 _ HI Hwf) as S. pose proof (i_abs _ _ HI) as Ha.
+  destruct (str_step al s (OpSetOwnLen 0 n)) as [s' ret ws|] eqn:E; [|contradiction].
+  cbn [step_post op_bytes op_len] in S. rewrite zskipn_nonpos in S by lia.
+  destruct S as [(-> & HI' & _ & _ & Hws & _)|(_ & _ & _ & [A|[A|[_ A]]])]; try lia.
+  exists s', ws. split; [reflexivity|]. split; [assumption|]. split; [|assumption].
+  (* no allocation request: the request counter only moves on the malloc path *)
+  cbn [str_step] in E. destruct (comp s) as [id|]; [|discriminate].
+  unfold set_string_len, to_size_t in E. assert (En : (n <? 0) = false) by lia. rewrite En in E.
+  unfold set_string_sz in E. assert (E0 : (n >=? INT_MAX - 1) = false) by lia. rewrite E0 in E.
+  unfold set_phase1 in E. unfold slen_abs in Ha.
+  destruct (slen s <? 0) eqn:Eneg.
+  - destruct (n =? 0) eqn:Ez.
+    + destruct (pptr s) as [p|]; [|discriminate]. destruct (hfree (hp s) p); [|discriminate].
+      cbn [comp slen Z.ltb Z.compare] in E. assert (Eg : (n >? 0) = false) by lia. rewrite Eg in E.
+      unfold set_finish in E. cbn [hp ilen0 pptr reqs elog slen] in E.
+      repeat match type of E with context [match ?x with _ => _ end] => destruct x; try discriminate end;
+        inversion E; subst; reflexivity.
+    + destruct (slen s =? SSIZE_T_MIN); [discriminate|]. destruct (comp s); [|discriminate].
+      assert (Eg : (n >? - slen s) = false) by lia. rewrite Eg in E.
+      unfold set_finish in E.
+      repeat match type of E with context [match ?x with _ => _ end] => destruct x; try discriminate end;
+        inversion E; subst; reflexivity.
+  - destruct (comp s); [|discriminate]. assert (Eg : (n >? slen s) = false) by lia. rewrite Eg in E.
+    unfold set_finish in E.
+    repeat match type of E with context [match ?x with _ => _ end] => destruct x; try discriminate end;
+      inversion E; subst; reflexivity.
 Qed.
 
 (* a set that fails — refused length or allocation failure — leaves contents, length,
    storage and the malloc/free log exactly as they were *)
 Theorem failed_set_keeps al s bs0 o s' ws :
-  InvC s bs0 -> op_wf o -> str_step al s o = SOk s' 0 ws ->
+  InvC s bs0 -> op_wf bs0 o -> str_step al s o = SOk s' 0 ws ->
   ws = [] /\ same_store s s' /\ InvC s' bs0 /\
   get_string s' = get_string s /\ slen_abs s' = slen_abs s /\ is_sep s' = is_sep s /\
-  (op_len o < 0 \/ INT_MAX - 1 <= op_len o \/
-   (al (reqs s) (op_len o + 1) = false /\ slen_abs s < op_len o)).
+  (op_len bs0 o < 0 \/ INT_MAX - 1 <= op_len bs0 o \/
+   (al (reqs s) (op_len bs0 o + 1) = false /\ slen_abs s < op_len bs0 o)).
 Proof.
   intros HI Hwf H. pose proof (step_spec al s bs0 o HI Hwf) as S. rewrite H in S. cbn [step_post] in S.
   destruct S as [(Hc & _)|(_ & -> & Hss & Hwhy)]; [discriminate|].
@@ -575,7 +773,7 @@ Qed.
 (* refusals and failures are never spurious: a representable length succeeds whenever the
    allocator cooperates *)
 Theorem good_set_succeeds s bs0 o :
-  InvC s bs0 -> op_wf o -> 0 <= op_len o < INT_MAX - 1 ->
+  InvC s bs0 -> op_wf bs0 o -> 0 <= op_len bs0 o < INT_MAX - 1 ->
   exists s' ws, str_step (fun _ _ => true) s o = SOk s' 1 ws.
 Proof.
   intros HI Hwf Hl. pose proof (step_spec (fun _ _ => true) s bs0 o HI Hwf) as S.
@@ -595,15 +793,23 @@ Fixpoint str_run (al : alloc) (s : st) (ops : list sop) : option (st * list Z) :
       end
   end.
 
+(* every call of the history respects the caller contract in the state it is applied to *)
+Fixpoint hist_ok (al : alloc) (s : st) (ops : list sop) : Prop :=
+  match ops with
+  | [] => True
+  | o :: os => op_wf (contents s) o /\
+               match str_step al s o with SOk s' _ _ => hist_ok al s' os | SUB => True end
+  end.
+
 (* the property's reading of a history: the bytes of the last successful set *)
 Fixpoint spec_run (c : list byte) (ops : list sop) (rets : list Z) : list byte :=
   match ops, rets with
-  | o :: os, r :: rs => spec_run (if r =? 1 then op_bytes o else c) os rs
+  | o :: os, r :: rs => spec_run (if r =? 1 then op_bytes c o else c) os rs
   | _, _ => c
   end.
 
 Theorem run_spec al ops : forall s bs0,
-  InvC s bs0 -> Forall op_wf ops ->
+  InvC s bs0 -> hist_ok al s ops ->
   exists s' rets, str_run al s ops = Some (s', rets) /\ InvC s' (spec_run bs0 ops rets) /\
                   length rets = length ops /\ Forall (fun r => r = 0 \/ r = 1) rets /\
                   ilen0 s' = ilen0 s /\
@@ -611,7 +817,7 @@ Theorem run_spec al ops : forall s bs0,
 Proof.
   induction ops as [|o os IH]; intros s bs0 HI Hwf.
   - exists s, []. cbn. split; [reflexivity|]. split; [assumption|]. auto.
-  - inversion Hwf as [|? ? Ho Hos]; subst. cbn [str_run].
+  - cbn [hist_ok] in Hwf. destruct Hwf as [Ho Hos]. rewrite (inv_contents _ _ HI) in Ho. cbn [str_run].
     pose proof (step_spec al s bs0 o HI Ho) as S.
     destruct (str_step al s o) as [s1 r ws|]; [|contradiction]. cbn [step_post] in S.
     destruct S as [(-> & HI1 & Hz & Hr & _ & Hi0)|(-> & _ & Hss & _)].
@@ -629,7 +835,7 @@ Qed.
 (* for all histories: reading returns exactly the last bytes set, the reported length is
    their count, a NUL follows them inside the buffer *)
 Theorem get_after_sets al ops s bs0 :
-  InvC s bs0 -> zlen bs0 <= INT_MAX -> Forall op_wf ops ->
+  InvC s bs0 -> zlen bs0 <= INT_MAX -> hist_ok al s ops ->
   exists s' rets, str_run al s ops = Some (s', rets) /\
     let bs := spec_run bs0 ops rets in
     get_string s' = Some (map Some bs) /\ get_string_len s' = zlen bs /\
@@ -638,6 +844,25 @@ Proof.
   intros HI Hb Hwf. destruct (run_spec al ops s bs0 HI Hwf) as (s' & rets & Hr & HI' & _ & _ & _ & Hb').
   exists s', rets. split; [assumption|]. cbv zeta.
   destruct (inv_view _ _ HI') as (G1 & _ & G3 & G4). auto.
+Qed.
+
+(* histories whose sources are all outside the node need no state-dependent contract *)
+Definition ext_wf (o : sop) : Prop :=
+  match o with
+  | OpSetLen bs len => INT_MIN <= len <= INT_MAX /\ (0 <= len < INT_MAX - 1 -> len <= zlen bs)
+  | OpSet bs => In 0 bs
+  | _ => False
+  end.
+
+Lemma ext_hist_ok al ops : forall s, Inv s -> Forall ext_wf ops -> hist_ok al s ops.
+Proof.
+  induction ops as [|o os IH]; intros s (b & HI) Hf; [exact I|].
+  inversion Hf as [|? ? Ho Hos]; subst. cbn [hist_ok].
+  assert (Hwf : forall c, op_wf c o) by (intros c; destruct o; cbn in *; tauto).
+  split; [apply Hwf|]. pose proof (step_spec al s b o HI (Hwf b)) as S.
+  destruct (str_step al s o) as [s1 r ws|]; [|exact I]. cbn [step_post] in S. apply IH; [|assumption].
+  destruct S as [(_ & H1 & _)|(_ & _ & Hss & _)]; [eexists; eassumption|].
+  exists b. eapply same_store_inv; eassumption.
 Qed.
 
 (* ------------------------------------------------------------------ creation *)
@@ -754,12 +979,13 @@ Qed.
 Inductive reach (al : alloc) : st -> st -> Prop :=
 | reach_refl s : reach al s s
 | reach_step s s1 s2 o r ws :
-    reach al s s1 -> op_wf o -> str_step al s1 o = SOk s2 r ws -> reach al s s2.
+    reach al s s1 -> op_wf (contents s1) o -> str_step al s1 o = SOk s2 r ws -> reach al s s2.
 
 Lemma reach_inv al s s' : Inv s -> reach al s s' -> Inv s'.
 Proof.
   intros HI R. induction R as [|s s1 s2 o r ws R IH Ho Hs]; [assumption|].
-  destruct (IH HI) as (b1 & H1). pose proof (step_spec al s1 b1 o H1 Ho) as S. rewrite Hs in S.
+  destruct (IH HI) as (b1 & H1). rewrite (inv_contents _ _ H1) in Ho.
+  pose proof (step_spec al s1 b1 o H1 Ho) as S. rewrite Hs in S.
   cbn [step_post] in S. destruct S as [(_ & H2 & _)|(_ & _ & Hss & _)].
   - eexists; eassumption.
   - exists b1. eapply same_store_inv; eassumption.
@@ -792,7 +1018,7 @@ Proof.
 Qed.
 
 Theorem no_leak_no_uaf al s0 s o :
-  Inv s0 -> reach al s0 s -> op_wf o ->
+  Inv s0 -> reach al s0 s -> op_wf (contents s) o ->
   Safe s /\
   match str_step al s o with
   | SOk s' r ws => Forall (wr_ok (hp s')) ws /\ Safe s' /\ (r = 0 \/ r = 1)
@@ -800,7 +1026,8 @@ Theorem no_leak_no_uaf al s0 s o :
   end.
 Proof.
   intros H0 R Ho. pose proof (reach_inv al s0 s H0 R) as HI. split; [apply inv_safe; assumption|].
-  destruct HI as (b1 & H1). pose proof (step_spec al s b1 o H1 Ho) as S.
+  destruct HI as (b1 & H1). rewrite (inv_contents _ _ H1) in Ho.
+  pose proof (step_spec al s b1 o H1 Ho) as S.
   destruct (str_step al s o) as [s' r ws|] eqn:E; [|exact S]. cbn [step_post] in S.
   destruct S as [(-> & H2 & _ & _ & Hws & _)|(-> & -> & Hss & _)].
   - split; [assumption|]. split; [|right; reflexivity]. apply inv_safe. eexists; eassumption.
